@@ -137,6 +137,7 @@ func TestC06(t *testing.T) {
 			fl := hx.Fault{Node: n, Field: f, Kind: rapid.SampledFrom(kinds).Draw(rt, label+"kind")}
 			if fl.Kind == "group" || fl.Kind == "wgroup" {
 				fl.N = rapid.IntRange(1, 3).Draw(rt, label+"n")
+				fl.Same = fl.Kind == "group" && rapid.IntRange(0, 2).Draw(rt, label+"same") == 0
 			}
 			// list accessor failure (root resolver's Nth) when the site holds a non-empty list
 			if base.AnyInstalled {
